@@ -205,6 +205,10 @@ int KSI_AsyncSigningHandle_new(KSI_CTX *ctx, KSI_DataHash *rootHash, KSI_uint64_
 
 	res = KSI_OK;
 cleanup:
+	if (req != NULL) {
+		/* The root hash is taken over only by a successful call - do not free it with the request. */
+		KSI_AggregationReq_setRequestHash(req, NULL);
+	}
 	KSI_AggregationReq_free(req);
 	KSI_Integer_free(reqLvl);
 	KSI_AsyncHandle_free(tmp);
